@@ -154,8 +154,11 @@ def main():
         from pyworkers.persistent import PersistentWorker
         from pyworkers.worker import WorkerType
         for wt, kw in ((WorkerType.THREAD, {}), (WorkerType.PROCESS, {}), (WorkerType.REMOTE, {'host': server.addr})):
-            pw = PersistentWorker.create(wt, V.mod_echo, **kw)
-            pw.wait(timeout=10)
+            try:
+                pw = PersistentWorker.create(wt, V.mod_echo, **kw)
+                pw.wait(timeout=10)
+            except Exception:  # noqa  (a broken factory shows in the scenarios that use it, judged like any other outcome)
+                pass
         for scn in scns:
             if scn['target_none']:
                 dkind, val = 'ret', None
